@@ -783,8 +783,18 @@ pub fn target_grid_case(reg: &Registry, fam_name: &str, variant: &str, par: usiz
     let mut ops = vec![Op::New { id: 1, task: 0, fam: f, role: Role::Both, key: rng.bytes(fam.key_size), fixed: false }];
     let mut k = 0usize;
     for dir in [Dir::Dec, Dir::Enc] {
-        for shape in [Shape::BlocksB2b, Shape::BlocksInout, Shape::Blocks] {
-            for n in if compact { vec![par + 1] } else { vec![par, par + 1, 2 * par + 1] } {
+        // batch lengths: tails of 1, 3 and par-1 blocks after one full batch (compact), every tail 0..=7 plus
+        // two full batches and a tail otherwise
+        let ns: Vec<usize> = if compact {
+            vec![par + 1, par + 3, 2 * par - 1]
+        } else {
+            let mut v: Vec<usize> = (0..=7usize.min(par.saturating_sub(1))).map(|t| par + t).collect();
+            v.extend([2 * par - 1, 2 * par + 1]);
+            v
+        };
+        let shapes: Vec<Shape> = if compact { vec![Shape::BlocksB2b, Shape::Blocks] } else { vec![Shape::BlocksB2b, Shape::BlocksInout, Shape::Blocks] };
+        for shape in shapes {
+            for n in ns.clone() {
                 let n = n.min(maxn);
                 let len = n * bs;
                 k += 1;
